@@ -64,6 +64,38 @@ chk("C13", "model_checking",
     "Conformance: batch sizes 0..95 (thorough 250/400), each corruption kind at first/middle/last position, permutations, duplicates, repetition, length mismatches, serial and vector copies.",
     "Outside the precondition only determinism is required. merlin coefficients not modelled.", "TLA+ spec + TLC toy model + trace validation", "DESIGN.md 5/C13")
 
+chk("C05", "model_checking",
+    "One request stream (the public-API scripts of C02-C04, C06-C09, C13) is replayed against 12 builds (6 backends x tables on/off) and 5 forced-dispatch variants; two reference traces "
+    "are validated against the specification and TraceEquiv.tla requires every public observation and panic field to be identical in all 17 configurations; the dispatcher's decision is logged "
+    "by the hook and must take every value possible on this host.",
+    "Configurations are complete for what this host can build and run (32-bit backends compiled for x86-64). Inputs are the finite scripts.",
+    "TLA+ trace validation + TraceEquiv over merged per-configuration traces", "DESIGN.md 5/C05")
+chk("C12", "model_checking",
+    "Finite and enumerated completely at full size: the hook dumps every crate-private constant and every raw table entry (radix-16 table 32x8, affine odd multiples 64, AVX2 and IFMA cached tables 64 each) "
+    "in every limb representation; TraceVec.tla converts limbs with the build's radix schedule and compares with the definitions (multiples of B by the definitional scalar multiplication, defining equations of "
+    "the field and Montgomery constants, l / R / RR / LFACTOR relations, order of B, the eight torsion points being exactly E[8]). Each entry is also selected through the public API under every build and dispatch.",
+    "Definitions are those of RFC 7748/8032/9496 as stated in gen_params.py and ASSUMEd in the spec modules. Exhaustive for the shipped tables.",
+    "TLA+ definitions evaluated by TLC on hook-dumped constants (exhaustive) + API selection traces", "DESIGN.md 5/C12")
+chk("C14", "model_checking",
+    "Memory.tla: TLC explores the heap user (collect, compute, wipe, free) for n <= 5: with exact reservation no freed block is tainted; kept counterexamples for a growing vector and for the missing wipe. "
+    "Conformance: a logging global allocator records every freed block with a digest of its contents; each operation runs with 3 secrets; the recorded alloc/dealloc sequence is replayed by the specification "
+    "(serial, AVX2, IFMA copies). Drops: storage bytes before/after drop_in_place for the six secret-holding types; the seven Zeroize impls.",
+    "Tainted = contents differ between runs differing only in the secret. Default realloc (move) is the worst case. Stack residue not observed.",
+    "TLA+ heap model + TLC + allocator-trace replay + post-drop storage inspection", "DESIGN.md 5/C14")
+chk("C15", "model_checking",
+    "The toy models assign every byte string an outcome for every decoder (and show the Elligator2 output is never a rejected point, so the expect() cannot fire). Conformance: 29 entry points x slices of every length "
+    "0..96 and 1000, random strings, exceptional values; every event carries its panic field and must have the specified outcome.",
+    "catch_unwind in the driver; finite inputs.", "TLA+ spec totality on toy curves + trace validation with panic field", "DESIGN.md 5/C15")
+chk("C16", "model_checking",
+    "Serde.tla gives the wire form per type and format and the deserialisation rule (length rule + native validity); TLC checks round trip and validation for every toy value and short wire string. "
+    "Conformance: 11 types x valid values, non-canonical scalars, invalid points, truncated / extended / empty payloads, wrong length prefixes, out-of-range JSON elements x bincode / bincode strict / JSON.",
+    "Trailing bytes for tuple-encoded types are bincode's business: checked with reject_trailing_bytes() and JSON. ed25519::Signature's impl is in an external crate.",
+    "TLA+ wire-format spec + TLC toy model + trace validation", "DESIGN.md 5/C16")
+chk("C17", "model_checking",
+    "GroupTraits.tla: sqrt returns a root exactly for residues, invert None only for 0, from_repr canonical only, constants (modulus, 2^-1, generator a non-residue, root of unity of exact order 4 and its inverse, delta) by their relations; "
+    "GroupEncoding = compress/decompress, subgroup wrapper admits exactly torsion-free points, clear_cofactor = [8]. Toy: field axioms and subgroup facts. Conformance: driver built with the group feature.",
+    "That 2 generates the whole multiplicative group is not established (needs the factorisation of l-1).", "TLA+ spec + TLC toy models + trace validation", "DESIGN.md 5/C17")
+
 NOT_YET = {}
 
 def main():
